@@ -84,4 +84,10 @@ theorem gen_memoize_init_pure :
     (memoizeInitCalls.contains "get_interpretation" || memoizeInitCalls.contains "PrioritizedInterpretation"
       || memoizeInitCalls.contains "interpreter.get_interpretation") = false := by decide
 
+/-- **A fresh rule table per StatefulInterpretation class**: the metaclass creates a new registry for
+    every class, unconditionally (never the parent's) — the source form behind `rulesOf` /
+    `parent_ignores_subclass_rules`. -/
+theorem gen_stateful_registry_fresh :
+    statefulRegistryAssign = ["KeyedRegistry(default=lambda *args: None)"] := by decide
+
 end FV.Props.C17.Tables
